@@ -1,4 +1,13 @@
-(* C16 — persistence storages: generated annotation names.  Only statements here; proofs in Proofs/. *)
+(* C16 — persistence storages.  Only statements here; proofs in Proofs/Keys.v, Proofs/Storage.v, Proofs/StoragePurge.v.
+
+   Clause table (statement of C16 -> what states it):
+   | clause                                                      | stated by                                                   | status |
+   | stored record is read back identically from the patched object | C16_roundtrip_annotations, C16_roundtrip_pending          | full for the annotation progress storage (every hash, prefix, v1/v2, verbosity, id, record, body, pending patch); status / multi / smart progress storages and the diff-base storages: D-tied on the same inputs + round-trip monitor (status round trip needs total records: RFC 7386 merges objects recursively) |
+   | can be purged completely                                    | C16_purged_completely                                       | full for the annotation storage (fresh or any pending patch, all keys incl. v1 and -ofDRS); status: D-tied + monitor |
+   | never disturbs other handlers' records / other prefixes / user data | C16_isolation_annotations                          | full for the annotation storage; status: monitor |
+   | names are valid Kubernetes names                            | C16_suffix_shape, C16_len, C16_charset, C16_valid_names_partial / _refuted (F2), C16_v1_len_partial / _refuted (F12) | partial: exactly the two recorded findings are excluded |
+   | identical across restarts                                   | make_keys is a function of (prefix, v1, is-DRS, id) in the model; D:keys ties it to two fresh storage instances | by construction + monitor nondeterministic-name |
+   | distinct for long ids that share a prefix                   | C16_long_distinct                                           | full, reduced to distinctness of the digests (blake2b is an oracle) | *)
 From Coq Require Import ZArith NArith List String Bool Ascii.
 From KV Require Import Proofs.StoragePurge.
 From KV Require Import Base.Json Base.Dicts Model.Keys Model.Storage Proofs.Keys Proofs.JsonMerge Proofs.Storage.
